@@ -10,6 +10,15 @@ import subprocess
 IMPORTS = 'From Tranp Require Import Model.Session.'
 
 
+GENERIC_POOL = {
+    'proj.gen': ("from collections.abc import Callable\nfrom typing import Generic, TypeVar\n\nT = TypeVar('T')\n\n\nclass Box(Generic[T]):\n\tv: T\n\n\tdef __init__(self, v: T) -> None:\n\t\tself.v = v\n\n"
+                 "\tdef each(self, f: Callable[[T], None]) -> None:\n\t\tf(self.v)\n\n\tdef pick(self, f: Callable[[T, T], T], other: T) -> T:\n\t\treturn f(self.v, other)\n"),
+    'proj.ga': "from proj.gen import Box\n\n\ndef fa(b: Box[int]) -> int:\n\tb.each(lambda v: print(v))\n\treturn b.pick(lambda p, q: p + q, 2)\n",
+    'proj.gb': "from proj.gen import Box\n\n\ndef fb(b: Box[str]) -> str:\n\tb.each(lambda s: print(s))\n\treturn b.pick(lambda p, q: p + q, 'x')\n",
+    'proj.gc': "from proj.gen import Box\n\n\ndef fc(n: float) -> float:\n\tb = Box(n)\n\tb.each(lambda w: print(w))\n\treturn b.pick(lambda p, q: p * q, 0.5)\n",
+}
+
+
 def fresh_process(sources, order, seed, scratch):
     env = impl_env(PYTHONHASHSEED=str(seed), TRANP_SCRATCH=scratch)
     p = subprocess.run([PY, os.path.join(VERIF, 'harness', 'fresh_transpile.py')], input=json.dumps(dict(sources=sources, order=order)),
@@ -54,11 +63,20 @@ def run(ctx: Ctx) -> None:
             # ... and a closure capturing four outer variables (the capture list must not depend on the hash seed)
             srcs['proj.mcl'] = ('def outer(alpha: int, beta: int, gamma: int) -> int:\n\tdelta = alpha + 1\n\tdef inner(q: int) -> int:\n'
                                 '\t\treturn q + delta - gamma - beta - alpha\n\treturn inner(1)\n')
+        if hidx == 1:
+            # a second fixed pool: a user-defined generic class whose method takes a callable over T, instantiated with lambdas at
+            # three different type arguments by three modules (signatures of generic methods are re-bound per call site)
+            srcs = dict(GENERIC_POOL)
         names = list(srcs)
         imps = {i: sorted(names.index(x) for x in set(re.findall(r'^from (\S+) import', srcs[n], flags=re.M)) if x in names) for i, n in enumerate(names)}
         fresh = {}
-        for n in names:
-            fresh[n] = tsession.Session(srcs).transpile(n)
+        try:
+            for n in names:
+                fresh[n] = tsession.Session(srcs).transpile(n)
+        except Errors.Error as e:
+            ctx.violation('pool-rejected:' + type(e).__name__, 'a module of the pool is rejected in a fresh session (%s)' % type(e).__name__,
+                          dict(sources=srcs, history=[('transpile', names.index(n))], impl_result=str(e)[:300]))
+            continue
         sess = tsession.Session(srcs)
         hist, obs = [], []
         nontrivial = False
@@ -106,6 +124,58 @@ def run(ctx: Ctx) -> None:
         cases.append(coq_pair('(%s)' % clo, ops, outs, lsets))
         raw.append(dict(imports=imps, history=hist))
         all_srcs.append(srcs)
+        # ---- directed histories on the fixed pools: every ordered pair - transpile x (twice), then y, then x again ----
+        if hidx < 2:
+            for x in range(len(names)):
+                for y in range(len(names)):
+                    if x == y:
+                        continue
+                    s5 = tsession.Session(srcs)
+                    h5 = []
+                    for m in (x, x, y, x):
+                        h5.append(('transpile', m))
+                        ctx.evaluations += 1
+                        ctx.count('directed:ordered-pair')
+                        try:
+                            text = s5.transpile(names[m])
+                        except Errors.Error as e:
+                            ctx.violation('history-breaks-transpile:' + type(e).__name__, 'transpiling a module fails inside a session history although a fresh session succeeds (%s)' % type(e).__name__,
+                                          dict(sources=srcs, history=list(h5), impl_result=str(e)[:300]))
+                            break
+                        if text != fresh[names[m]]:
+                            ctx.violation('history-dependent-output', 'transpiling a module inside a session history gives a different text than a fresh session',
+                                          dict(sources=srcs, history=list(h5), oracle_result=fresh[names[m]][-300:], impl_result=text[-300:]))
+                            break
+        # ---- directed histories on the fixed pools: a submission of a module fails after parsing (undeclared type), then the valid
+        #      text is re-submitted under the same path (the interactive loop: set the source, unload, load) ----
+        if hidx < 2:
+            for m in range(len(names)):
+                live = dict(srcs)
+                s6 = tsession.Session(live)
+                live[names[m]] = srcs[names[m]] + '\n\ndef zz_bad(a: MissingType) -> None: ...\n'
+                h6 = [('submit-failing', m)]
+                try:
+                    s6.transpile(names[m])
+                    ctx.count('directed:resubmit:first-accepted')
+                except Errors.Error:
+                    pass
+                live[names[m]] = srcs[names[m]]
+                s6.unload(names[m])
+                importers = [x for x in range(len(names)) if x != m and m in import_closure(imps, x)]
+                for t in [m] + importers[:1]:
+                    h6.append(('resubmit' if t == m else 'transpile', t))
+                    ctx.evaluations += 1
+                    ctx.count('directed:resubmit')
+                    try:
+                        text = s6.transpile(names[t])
+                    except Errors.Error as e:
+                        ctx.violation('history-breaks-transpile:' + type(e).__name__, 'after a failed submission the valid text of the same module does not transpile in the same session (%s)' % type(e).__name__,
+                                      dict(sources=srcs, history=list(h6), failing_suffix='def zz_bad(a: MissingType) -> None: ...', impl_result=str(e)[:300]))
+                        break
+                    if text != fresh[names[t]]:
+                        ctx.violation('history-dependent-output', 'transpiling a module inside a session history gives a different text than a fresh session',
+                                      dict(sources=srcs, history=list(h6), failing_suffix='def zz_bad(a: MissingType) -> None: ...', oracle_result=fresh[names[t]][-300:], impl_result=text[-300:]))
+                        break
         # ---- directed histories: unload one of two unrelated modules whose paths are in string-prefix relation ----
         for x in range(len(names)):
             for y in range(len(names)):
@@ -246,11 +316,20 @@ def replay(ctx: Ctx, data: dict) -> int:
     from rogw.tranp.errors import Errors
     srcs = data['sources']
     names = list(srcs)
-    sess = tsession.Session(srcs)
+    live = dict(srcs)
+    sess = tsession.Session(live)
     bad = False
     for op, m in data['history']:
         try:
-            if op == 'load':
+            if op == 'submit-failing':
+                live[names[m]] = srcs[names[m]] + '\n\n' + data.get('failing_suffix', '') + '\n'
+                try:
+                    sess.transpile(names[m])
+                except Errors.Error as e:
+                    print(op, names[m], '->', type(e).__name__, '(expected)')
+                live[names[m]] = srcs[names[m]]
+                sess.unload(names[m])
+            elif op == 'load':
                 sess.load(names[m])
             elif op == 'unload':
                 sess.unload(names[m])
